@@ -353,6 +353,36 @@ def check_float(ctx):
         v = p.value
         ok = isinstance(v, Num) and v.arr is not None and v.arr.dtype == "float"
         ctx.check(ok, rule, "col_cumsum", f.loc(), "prefix sums of integer data are accumulated in a float array (promotion before any division)", found=f"dtype {v.arr.dtype if isinstance(v, Num) and v.arr is not None else '?'}", expected="float")
+    # fixed cost parameters are never cast to a dtype that is not float by construction (e.g. the data's dtype: a
+    # fractional mean would be truncated for integer data)
+    from . import c01
+
+    for cls in ctx.P.registry("skchange.costs", "COSTS"):
+        tab = c01.PARAM_TABLE.get(cls.name)
+        if tab is None:
+            continue
+
+        def go_cast(cls=cls, tab=tab):
+            ex, paths, state = c01.scenario(ctx, cls, tab, "fixed-array")
+            comps = {Atom("sym", c).key for c in tab["components"]}
+            bad = {}
+            n_cast = 0
+            for p in paths:
+                for e in p.events:
+                    if e.kind != "cast":
+                        continue
+                    v = e.data["value"]
+                    if not (isinstance(v, Num) and v.nf is not None and any(k in comps for k in atoms_of(v.nf))):
+                        continue
+                    n_cast += 1
+                    if e.data["dtype"] != "float":
+                        bad.setdefault(e.loc(), e)
+            for l, e in bad.items():
+                ctx.violation(rule, f"{cls.name}|param-cast|{norm_src(e.node)[:50]}", l, "a fixed cost parameter is cast to a dtype that is not float by construction (integer, or taken from the data): a fractional mean / variance is truncated for integer data", found=f"{e.data['how']} to {e.data['dtype'] or 'a dtype taken from an argument'}", expected="float")
+            if not bad:
+                ctx.holds(rule, f"{cls.name}|param-cast", cls.module.relpath, f"no cast of the fixed parameter to a non-float dtype on the fit/evaluate path ({n_cast} casts inspected)", nontrivial=False)
+
+        ctx.guard(rule, f"{cls.name}|param-cast", go_cast, cls.module.relpath)
     # score tables in the drivers
     seen = set()
     for pkg, name, meth in DETECTORS:
